@@ -23,7 +23,14 @@ import (
 type Rand struct{ s uint64 }
 
 // NewRand returns a PRNG for the seed.
-func NewRand(seed uint64) *Rand { return &Rand{s: seed*0x9E3779B97F4A7C15 + 0x1234567} }
+func NewRand(seed uint64) *Rand {
+	// mix the seed through the splitmix64 output function so that consecutive seeds
+	// (shards of one run, VERIF_SEED=1,2,3) give unrelated streams
+	z := seed + 0x9E3779B97F4A7C15
+	z = (z ^ (z >> 30)) * 0xBF58476D1CE4E5B9
+	z = (z ^ (z >> 27)) * 0x94D049BB133111EB
+	return &Rand{s: z ^ (z >> 31)}
+}
 
 // Uint64 returns the next value.
 func (r *Rand) Uint64() uint64 {
